@@ -8,7 +8,7 @@ import "time"
 // only; never present in the repository.
 
 // VerifResetDiscovery clears the process-global discovery cache between simulated runs.
-func VerifResetDiscovery() { wellKnownConfigs = make(map[string]WellKnownConfig) }
+func VerifResetDiscovery() { clear(wellKnownConfigs) } // (whatever the element type of the cache is)
 
 // VerifMemSession is a ground-truth snapshot of one in-memory session.
 type VerifMemSession struct {
